@@ -38,6 +38,9 @@ func (s *CAStore) VerifExpireMemCache() { s.cleanupMemoryCacheExpiredEntries() }
 // VerifCacheFileOp returns a FileOp on the cache directory of s.
 func (s *CAStore) VerifCacheFileOp() base.FileOp { return s.cacheStore.newFileOp() }
 
+// VerifCacheBackend returns the FileStore behind the cache directory of s.
+func (s *CAStore) VerifCacheBackend() base.FileStore { return s.cacheStore.backend }
+
 // ---- C10: cleanup manager
 
 // VerifUsageFn is the disk usage probe type of the cleanup manager.
